@@ -10,7 +10,7 @@ func Minimise(eng Engine, p *Plan, class string, budget time.Duration) *Plan {
 		if time.Now().After(deadline) {
 			return false
 		}
-		r := eng.Execute(q)
+		r := safeExecute(eng, q)
 		return r.V != nil && r.V.Class == class
 	}
 	best := p.Clone()
